@@ -1058,7 +1058,7 @@ Record wf_cat (i : cinst) : Prop := mk_wf_cat {
   wf_ncat : (1 <= c_num_categories i)%N;                                  (* 1 or more categories *)
   wf_len : Forall (fun b => N.of_nat (List.length b) = c_num_categories i) (c_prefs i);
   wf_mult_pos : Forall (fun p => (1 <= snd p)%N) (c_mult i);              (* multiplicities >= 1 *)
-  wf_keys : map fst (c_mult i) = c_prefs i;                               (* table keys = ballot list *)
+  wf_keys : Permutation (map fst (c_mult i)) (c_prefs i);                 (* table keys = ballot list, in ANY order *)
   wf_nodup : NoDup (c_prefs i);
   wf_meta : wf_fields (c_meta i);                                         (* single-line, no outer whitespace *)
   wf_dtype : data_type (c_meta i) = lit "cat";
@@ -1307,8 +1307,9 @@ Proof.
   intros W. repeat split; try reflexivity.
   - apply sorted_prefs_perm.
   - rewrite sorted_view_mult. rewrite <- (retable_self (c_mult i)) at 1.
-    + unfold retable. apply Permutation_map. rewrite (wf_keys i W). apply sorted_prefs_perm.
-    + rewrite (wf_keys i W). apply (wf_nodup i W).
+    + unfold retable. apply Permutation_map.
+      eapply Permutation_trans; [apply (wf_keys i W)|apply sorted_prefs_perm].
+    + eapply Permutation_NoDup; [apply Permutation_sym, (wf_keys i W)|apply (wf_nodup i W)].
   - intros b. rewrite sorted_view_mult.
     destruct (in_dec (list_eq_dec (list_eq_dec N.eq_dec)) b (sorted_prefs i)) as [Hin|Hnin].
     + now apply mult_of_retable.
@@ -1317,8 +1318,9 @@ Proof.
       { intros M. unfold mult_of. induction M as [|[b' k'] r IH]; intros H; [reflexivity|]. cbn [assoc_get].
         rewrite ballot_eqb_neq; [apply IH|]; intros E; apply H; [now right|now left]. }
       rewrite !A; [reflexivity| |].
-      * rewrite (wf_keys i W). intros Hin. apply Hnin.
-        eapply Permutation_in; [apply sorted_prefs_perm|exact Hin].
+      * intros Hin. apply Hnin.
+        eapply Permutation_in; [apply sorted_prefs_perm|].
+        eapply Permutation_in; [apply (wf_keys i W)|exact Hin].
       * unfold retable. rewrite map_map. cbn [fst]. now rewrite map_id.
 Qed.
 
